@@ -285,16 +285,45 @@ func c19Exec(cs c19Case) (string, string, string) {
 	desc := fmt.Sprintf("after startup (initial resolution %s)", cs.Initial)
 	for i, ev := range cs.Hist {
 		desc = fmt.Sprintf("step %d %v of %v (%s backends, %d host names, initial %s)", i, ev, cs.Hist, cs.Proto, cs.NHosts, cs.Initial)
+		// the LAST step happens with a transaction in flight (UDP backends): a request was handed to some backend
+		// X and X has answered 100; after the step X's late 180 and 200 arrive (wherever they are relayed to is
+		// not this property's matter: what counts is the state afterwards)
+		var pendRel *WMsg
+		pendTo := ""
+		if i == len(cs.Hist)-1 && cs.Proto == "udp" {
+			seq++
+			m := MsgSpec{Method: "INVITE", RURI: "sip:bob@svc.example.com", Vias: []string{fmt.Sprintf("SIP/2.0/UDP %s;branch=z9hG4bKpend%d", ua, seq)}, From: "<sip:a@ua.example.net>;tag=pf", To: "<sip:bob@svc.example.com>", CallID: fmt.Sprintf("pend%d", seq), CSeq: "1 INVITE"}.Build()
+			w.Observe()
+			w.SendUDP(ua, lst, m.Render())
+			if obs := w.Observe(); len(obs.Pkts) == 1 {
+				pendTo = obs.Pkts[0].To
+				pendRel, _ = ReadWire(obs.Pkts[0].Data)
+				if pendRel != nil {
+					w.SendUDP(pendTo, lst, ResponseTo(pendRel, 100, "").Render())
+					w.Observe()
+				}
+			}
+		}
 		ref.cur[ev.Host] = ev
 		c19Script(ev.Host, ev)
 		w.S.W.Advance(2e9) // one resolution period
 		w.S.Run()
 		ref.period()
+		if pendRel != nil {
+			w.SendUDP(pendTo, lst, ResponseTo(pendRel, 180, "pt").Render())
+			w.SendUDP(pendTo, lst, ResponseTo(pendRel, 200, "pt").Render())
+			w.Observe()
+		}
 	}
 	// state key (taken before the probes, which advance the rotation): resolver entries, rotation, scripted outcome
 	var b strings.Builder
 	for h := 0; h < cs.NHosts; h++ {
 		e := dynamicHostResolver.hostIPs[c19Names[h]]
+		if e == nil {
+			// the name is not (or no longer) registered with the resolver: part of the state, judged by the probes
+			fmt.Fprintf(&b, "h%d:unregistered/cur=%v|", h, ref.cur[h])
+			continue
+		}
 		f := e.failed
 		if len(e.addrs) == 0 {
 			f = 0 // the failure count only matters while addresses are held
@@ -419,7 +448,7 @@ func c19Run(c *Ctx) {
 
 func init() {
 	addCheck(&Check{ID: "C19", Level: "model_checking", Collapse: true,
-		Rule:   "explicit-state BFS by replay TO A FIXPOINT over resolution outcomes {failure, success with every non-empty subset of 3 (thorough 4) addresses, in two answer orders; the universe contains an address that is a textual suffix of another and one that has another as a prefix} for one host name (state = resolver addresses x consecutive failures x rotation list and cursor x scripted outcome: finite), for udp and tcp backends and for a successful / failed initial resolution; and to depth 4 (thorough 5) for two host names with disjoint address universes feeding one rotation; the same again for backend lists that end with a static entry of the OTHER transport on another port (udp host name to a fixpoint, tcp and two host names to depth 4 / 3), and for a host name listed under both transports with the same port (depth 3-4; tracked finding); the real periodic goroutine is driven by clock steps of one period and the world runs to quiescence between steps; after every step: 2k+1 dispatches must reach exactly the resolved set, the proxy's attribution index equals it, a fabricated response from every address of the universe binds a dialog iff the address is a current backend, sockets / connections of vanished backends are closed; non-trivial = history longer than one outcome",
+		Rule:   "explicit-state BFS by replay TO A FIXPOINT over resolution outcomes {failure, success with every non-empty subset of 3 (thorough 4) addresses, in two answer orders; the universe contains an address that is a textual suffix of another and one that has another as a prefix} for one host name (state = resolver addresses x consecutive failures x rotation list and cursor x scripted outcome: finite), for udp and tcp backends and for a successful / failed initial resolution; and to depth 4 (thorough 5) for two host names with disjoint address universes feeding one rotation; the same again for backend lists that end with a static entry of the OTHER transport on another port (udp host name to a fixpoint, tcp and two host names to depth 4 / 3), and for a host name listed under both transports with the same port (depth 3-4; tracked finding); the real periodic goroutine is driven by clock steps of one period and the world runs to quiescence between steps; the last step of every history happens with a transaction in flight (a request handed to a backend that has answered 100; its late 180 and 200 arrive after the step); after every step: 2k+1 dispatches must reach exactly the resolved set, the proxy's attribution index equals it, a fabricated response from every address of the universe binds a dialog iff the address is a current backend, sockets / connections of vanished backends are closed; non-trivial = history longer than one outcome",
 		Assume: []string{"a successful lookup never returns an empty list (as net.LookupIP)", "overlapping address sets of two host names are outside the stated domain"},
 		Run:    c19Run,
 		Replay: func(c *Ctx, raw json.RawMessage) string {
